@@ -1,5 +1,6 @@
 import Ln.Basic
 import Ln.Commit
+import Bd.Valid
 namespace LnDrv
 open Ln
 /-- comma separated bytes; a token `n*b` stands for `n` repetitions of byte `b` -/
@@ -26,6 +27,14 @@ partial def loop (h : IO.FS.Stream) : IO Unit := do
       | _ => none
     let r := lineStats edits
     IO.println s!"{r.added} {r.removed} {r.changed}"
+  | ["vs", o, n, sc] =>
+    -- old / new: line ids separated by ','; script: E3,D1,I2 …
+    let ids := fun (t : String) => if t = "-" then ([] : List Nat) else (t.splitOn ",").filterMap (·.toNat?)
+    let script := if sc = "-" then [] else (sc.splitOn ",").filterMap fun e =>
+      let k := (e.drop 1).toNat!
+      match e.get 0 with
+      | 'E' => some (Bd.EK.eq, k) | 'I' => some (Bd.EK.ins, k) | 'D' => some (Bd.EK.del, k) | _ => none
+    IO.println (if Bd.validScript script (ids o) (ids n) then "ok" else "bad")
   | "commit" :: mg :: cs =>
     -- change: I:name:lines|b   D:name:lines|b   M:name:E3,I2,D1 (or M:name:- for an empty script)
     let parseScript := fun (t : String) => if t = "-" then [] else (t.splitOn ",").filterMap fun e =>
